@@ -27,7 +27,8 @@ PID = 'C07'
 SCALE = 65536
 PAIRS = {'WorkII': ('IterA', 'IterB'), 'WorkIA': ('IterA', 'ArrB'), 'WorkAA': ('ArrA', 'ArrB'),
          'WorkIP': ('IterB', 'Plain'), 'WorkAP': ('ArrA', 'Plain'),
-         'WorkRR': ('RefA', 'RefB'), 'WorkRA': ('RefA', 'ArrB')}
+         'WorkRR': ('RefA', 'RefB'), 'WorkRA': ('RefA', 'ArrB'),
+         'WorkLL': ('LoadA', 'LoadB'), 'WorkLP': ('LoadA', 'Plain')}
 MUST_BREAK_WHEN_SHARED = {'WorkII', 'WorkIA', 'WorkAA', 'WorkAP', 'WorkRA'}
 
 
@@ -76,7 +77,38 @@ def build(kind):
             m.set_value('S!A1', 10)
             return m.evaluate('S!C1'), iter_no()
         return m, go
+    if kind in ('LoadA', 'LoadB'):   # reading a workbook file with date formatted cells
+        path = load_file(kind)
+
+        def go():
+            from pycel import ExcelCompiler
+            m = ExcelCompiler(filename=path)
+            return tuple(m.evaluate(f'S!B{i}') for i in range(1, LOAD_CELLS[kind] + 1))
+        return None, go
     raise ValueError(kind)
+
+
+LOAD_CELLS = {'LoadA': 3, 'LoadB': 2}
+_LOAD_FILES = {}
+
+
+def load_file(kind):
+    """an .xlsx file whose A column holds date formatted cells, B = A + 1"""
+    key = (kind, os.getpid())
+    if key not in _LOAD_FILES:
+        import datetime
+        import openpyxl
+        wb = openpyxl.Workbook()
+        ws = wb.active
+        ws.title = 'S'
+        for i in range(1, LOAD_CELLS[kind] + 1):
+            ws[f'A{i}'] = datetime.datetime(2020 + i, 1 + (kind == 'LoadB'), i)
+            ws[f'A{i}'].number_format = 'yyyy-mm-dd'
+            ws[f'B{i}'] = f'=A{i}+1'
+        path = os.path.join(tlc.new_scratch('load'), kind + '.xlsx')
+        wb.save(path)
+        _LOAD_FILES[key] = path
+    return _LOAD_FILES[key]
 
 
 def iter_no():
@@ -228,21 +260,31 @@ def pair_job(arg):
 def fine_job(arg):
     """preemption at every call of a pycel function (finer than the cell
     evaluations): one workload runs to completion inside the j-th call of the other"""
-    k1, k2, limit, seed = arg
+    k1, k2, limit, seed = arg[:4]
+    # only: the calls which are preemption points (None = every pycel function);
+    # with a handful of points the whole (j, k) family is executed
+    only = arg[4] if len(arg) > 4 else None
     rnd = random.Random(seed)
     want = {1: solo(k1)['result'], 2: solo(k2)['result']}
     kinds = {1: k1, 2: k2}
-    out = dict(pair=(k1, k2), warm='calls', schedules=0, switches=0, violations=[],
+    out = dict(pair=(k1, k2), warm='calls' if len(arg) < 5 else 'calls of ' + '/'.join(arg[4]), schedules=0, switches=0, violations=[],
                points=None, sample=None)
 
-    def execute(first, j):
+    def execute(first, j, k=None):
+        """k: the other workload runs k of its calls only, then the first one
+        completes, then the other (overlap which is not nested)"""
         other = 3 - first
-        state = dict(phase=0)
+        state = dict(phase=0, count=0)
 
         def decide(tid, own, glob):
             if state['phase'] == 0 and tid == first and own >= j:
                 state['phase'] = 1
                 return other
+            if k is not None and state['phase'] == 1 and tid == other:
+                state['count'] += 1
+                if state['count'] >= k:
+                    state['phase'] = 2
+                    return first
             return tid
 
         def w(tid, kind):
@@ -251,7 +293,7 @@ def fine_job(arg):
             return go()
         try:
             return sched.run_pair(lambda t: w(1, k1), lambda t: w(2, k2), decide,
-                                  lambda *a: None, first=first, call_points=True)
+                                  lambda *a: None, first=first, call_points=True, only=only)
         except sched.Deadlock as exc:
             raise tlc.MachineryFailure(f'scheduler deadlock {k1}/{k2} calls {first, j}: {exc}')
 
@@ -261,7 +303,7 @@ def fine_job(arg):
         res, baton = execute(first, 10 ** 9)
         n[first] = baton.points[first]
     out['points'] = (n[1], n[2])
-    if min(n.values()) < 20:
+    if min(n.values()) < (20 if only is None else 4):
         raise tlc.MachineryFailure(f'vacuous: {n} call points in {k1}/{k2}')
     for first in (1, 2):
         js = list(range(1, n[first] + 1))
@@ -287,6 +329,33 @@ def fine_job(arg):
             if out['sample'] is None:
                 out['sample'] = dict(workloads=[k1, k2], schedule=['call', first, j],
                                      results={t: repr(r) for t, r in res.items()})
+            if len(out['violations']) > 4:
+                break
+    # overlap which is not nested: the first runs to its call j, the other runs
+    # k calls, the first completes, the other completes
+    for first in (1, 2):
+        other = 3 - first
+        if n[first] * n[other] <= limit:
+            jks = [(j, k) for j in range(1, n[first] + 1) for k in range(1, n[other] + 1)]
+        else:
+            jks = [(rnd.randint(1, n[first]), rnd.randint(1, n[other])) for _ in range(limit // 2)]
+        for j, k in jks:
+            res, baton = execute(first, j, k)
+            out['schedules'] += 1
+            out['switches'] += baton.switches
+            out['lock_waits'] = out.get('lock_waits', 0) + baton.lock_waits
+            case = dict(workloads=[k1, k2], schedule=['call', first, j, k])
+            for tid in (1, 2):
+                st, val = res[tid]
+                if st != 'ok':
+                    out['violations'].append((
+                        f'{kinds[tid]} raised {val} (schedule: {kinds[first]} to its call {j}, '
+                        f'{kinds[other]} {k} calls, {kinds[first]} to the end)', case))
+                elif not xl.same_value(val, want[tid]) and val != want[tid]:
+                    out['violations'].append((
+                        f'{kinds[tid]} returned {val!r} (schedule: {kinds[first]} to its call {j}, '
+                        f'{kinds[other]} {k} calls, {kinds[first]} to the end); alone it returns '
+                        f'{want[tid]!r}', case))
             if len(out['violations']) > 4:
                 break
     out['violations'] = out['violations'][:4]
@@ -347,14 +416,16 @@ def fresh_thread_ops():
 def tlc_job(arg):
     work, shared = arg[:2]
     metaread = arg[2] if len(arg) > 2 else 'FALSE'
+    nolock = arg[3] if len(arg) > 3 else 'FALSE'
     d = tlc.new_scratch('thr')
     cfg = os.path.join(d, 't.cfg')
     with open(cfg, 'w') as f:
         f.write(f'CONSTANTS\n Thr <- MCThr\n Work <- {work}\n SHARED = {shared}\n METAREAD = {metaread}\n'
+                f' NOLOCK = {nolock}\n'
                 'SPECIFICATION Spec\nINVARIANT Isolation\nINVARIANT StackBalanced\nINVARIANT CallingBalanced\n'
-                'INVARIANT ExportSolo\n')
+                'INVARIANT Unpatched\nINVARIANT OneLoader\nINVARIANT ExportSolo\n')
     res = tlc.run('MC_Threads', cfg, workers=1, timeout=600)
-    return dict(work=work, shared=shared, metaread=metaread, rc=res.rc, violated=res.violated,
+    return dict(work=work, shared=shared, metaread=metaread, nolock=nolock, rc=res.rc, violated=res.violated,
                 distinct=res.distinct, generated=res.generated, depth=res.depth,
                 wall=round(res.wall, 2), json=res.json[:1])
 
@@ -363,15 +434,21 @@ def run(tier, seed):
     v = Verdict(PID, tier, seed)
     # ---- the design: all interleavings, thread-local vs shared --------------
     tl = parallel.run_jobs(tlc_job, [(w, sh) for w in PAIRS for sh in ('FALSE', 'TRUE')] +
-                           [('WorkRR', 'FALSE', 'TRUE')])
+                           [('WorkRR', 'FALSE', 'TRUE'), ('WorkLL', 'FALSE', 'FALSE', 'TRUE')])
     solo_model = {}
     for r in tl:
-        v.tlc_runs.append(dict(run=f'Threads {r["work"]} SHARED={r["shared"]} METAREAD={r["metaread"]}',
+        v.tlc_runs.append(dict(run=f'Threads {r["work"]} SHARED={r["shared"]} METAREAD={r["metaread"]} '
+                                   f'NOLOCK={r["nolock"]}',
                                distinct=r['distinct'], generated=r['generated'],
                                depth=r['depth'], wall_s=r['wall'], violated=r['violated']))
         v.states += r['distinct']
         v.transitions += r['generated']
-        if r['metaread'] == 'TRUE':
+        if r['nolock'] == 'TRUE':
+            # the code before D69: loads do not take turns
+            if r['violated'] not in ('Isolation', 'Unpatched'):
+                raise tlc.MachineryFailure('vacuous: Threads.tla WorkLL does not violate '
+                                           'Isolation / Unpatched with NOLOCK')
+        elif r['metaread'] == 'TRUE':
             # the code before D61: callees read the shared function metadata
             if r['violated'] != 'Isolation':
                 raise tlc.MachineryFailure('vacuous: Threads.tla WorkRR does not violate '
@@ -395,6 +472,8 @@ def run(tier, seed):
             ok = abs(got[0] * SCALE - want[0]) < 1e-6 and got[1] == want[1]
         elif kind.startswith('Ref'):
             ok = got[0] == want[0]
+        elif kind.startswith('Load'):
+            ok = len(got) == want[0] and all(xl.typeclass(x) == 'num' for x in got)
         elif kind.startswith('Arr'):
             shape = (len(got), len(got[0])) if isinstance(got[0], tuple) else (1, len(got))
             ok = list(shape) == list(want)
@@ -403,7 +482,8 @@ def run(tier, seed):
         if not ok:
             v.note(f'spec-drift: solo {kind} on the code gives {got!r}, Threads.tla Solo = {want}')
     # ---- binding (b): schedules on real threads ------------------------------
-    kinds = ['IterA', 'IterB', 'Iter2', 'ArrA', 'ArrB', 'ArrIter', 'Plain', 'SetEval', 'RefA', 'RefB']
+    kinds = ['IterA', 'IterB', 'Iter2', 'ArrA', 'ArrB', 'ArrIter', 'Plain', 'SetEval', 'RefA', 'RefB',
+             'LoadA', 'LoadB']
     if tier == 'quick':
         pairs = [('RefA', 'RefB'),
                  ('IterA', 'IterB'), ('IterA', 'ArrB'), ('ArrA', 'ArrB'), ('Iter2', 'ArrIter'),
@@ -415,12 +495,17 @@ def run(tier, seed):
     if tier == 'quick':
         jobs += [('fine', 'RefA', 'RefB', 200, seed + i) for i in range(3)] + [
                  ('fine', 'ArrA', 'ArrB', 60, seed),
-                 ('fine', 'IterA', 'ArrIter', 60, seed)]
+                 ('fine', 'IterA', 'ArrIter', 60, seed),
+                 ('fine', 'LoadA', 'LoadB', 80, seed),
+                 ('fine', 'LoadA', 'LoadB', 200, seed, ('from_excel', 'load')),
+                 ('fine', 'LoadB', 'Plain', 40, seed)]
     else:
-        fk = ['RefA', 'RefB', 'ArrA', 'ArrIter', 'IterA', 'Plain']
+        fk = ['RefA', 'RefB', 'ArrA', 'ArrIter', 'IterA', 'Plain', 'LoadA', 'LoadB']
         jobs += [('fine', a, b, 10 ** 6 if 'Ref' in a + b else 400, seed)
                  for a, b in itertools.combinations_with_replacement(fk, 2)
                  if (a, b) != ('RefB', 'RefB')]
+        jobs += [('fine', a, b, 10 ** 6, seed, ('from_excel', 'load'))
+                 for a, b in (('LoadA', 'LoadB'), ('LoadB', 'LoadA'), ('LoadA', 'LoadA'))]
     for r in parallel.run_jobs(any_job, jobs):
         v.evaluations += r['schedules']
         v.distinct.update((r['pair'], r['warm'], i) for i in range(r['schedules']))
